@@ -59,6 +59,7 @@ type world struct {
 	expect map[string]int // server -> connections of this player that shall park
 	free   map[string][]string // free run: server -> behaviours for the next connections
 	first  *firstJoin          // armed first-connection run of w.player
+	brk    *firstJoin          // armed hold at sw.switching (client breaks while a switch completes)
 	log    []tracefmt.Rec
 	live   int // attempts started and not ended, from the hook events
 	hooks  []string // names of the switch hooks this run's player hit
@@ -110,6 +111,23 @@ func (w *world) onEvent(thread, name string, kv []any) {
 		return
 	}
 	m := kvMap(kv)
+	if name == "sw.switching" {
+		w.mu.Lock()
+		f := w.brk
+		hold := f != nil && !f.used && m["player"] == w.player
+		if hold {
+			f.used = true
+		}
+		w.mu.Unlock()
+		if hold {
+			close(f.parked)
+			select {
+			case <-f.release:
+			case <-time.After(20 * time.Second):
+			}
+		}
+		return
+	}
 	w.mu.Lock()
 	defer w.mu.Unlock()
 	if m["player"] != w.player {
@@ -253,6 +271,7 @@ type stats struct {
 	Slowest    []string       `json:"slowest"`
 	FirstRuns  int            `json:"first_connection_runs"`
 	FirstHeld  int            `json:"first_connection_runs_held_at_ack"`
+	BreakHeld  int            `json:"runs_with_client_break_held_at_switch_completion"`
 	TotalMs    int64          `json:"total_ms"`
 }
 
@@ -367,6 +386,9 @@ func TestSchedules(t *testing.T) {
 		if info.firstHeld {
 			st.FirstHeld++
 		}
+		if info.breakHeld {
+			st.BreakHeld++
+		}
 		for _, g := range info.gates {
 			st.Gates[g]++
 		}
@@ -388,7 +410,7 @@ func TestSchedules(t *testing.T) {
 }
 
 type runInfo struct {
-	diverged, unfinished, overlap, firstHeld bool
+	diverged, unfinished, overlap, firstHeld, breakHeld bool
 	gates                         []string
 }
 
@@ -396,7 +418,7 @@ func runSchedule(w *world, idx int, sc schedule, seed int64) (recs []tracefmt.Re
 	r := w.r
 	name := fmt.Sprintf("w%d_%d", seed%1000, idx)
 	w.mu.Lock()
-	w.player, w.log, w.live, w.hooks = name, nil, 0, nil
+	w.player, w.log, w.live, w.hooks, w.brk = name, nil, 0, nil, nil
 	for k := range w.expect {
 		delete(w.expect, k)
 	}
@@ -637,6 +659,49 @@ func runSchedule(w *world, idx int, sc schedule, seed int64) (recs []tracefmt.Re
 				continue
 			}
 			// the backend acts; the calling thread wakes up and parks at sw.reset (or returns)
+			rig.WaitFor(patience, func() bool { return isDone(tn) || ctl.At(tn) != "" })
+		case "x":
+			// the destination accepts; the client's connection breaks while the proxy completes
+			// the switch (held at sw.switching: old backend detached, client not yet told)
+			tn := stp.T
+			if dialing[tn] {
+				releaseDial(tn)
+			}
+			a := attemptOf[tn]
+			dmu.Lock()
+			already := quit
+			dmu.Unlock()
+			if a == nil || already {
+				info.diverged = true
+				continue
+			}
+			f := &firstJoin{parked: make(chan struct{}), release: make(chan struct{})}
+			w.mu.Lock()
+			w.brk = f
+			w.mu.Unlock()
+			dirty = true
+			if !a.Do("accept") {
+				info.diverged = true
+				close(f.release)
+				continue
+			}
+			select {
+			case <-f.parked:
+				info.breakHeld = true
+			case <-time.After(800 * time.Millisecond):
+				// no such point on this path (1.20.2+ clients left the old backend earlier): the
+				// client simply breaks now
+			}
+			dmu.Lock()
+			quit = true
+			dmu.Unlock()
+			w.add(tracefmt.Rec{"ev": "quit", "during": "switch-completion"})
+			c.Close()
+			rig.WaitFor(patience, func() bool { return r.P.PlayerByName(name) == nil })
+			close(f.release)
+			w.mu.Lock()
+			w.brk = nil
+			w.mu.Unlock()
 			rig.WaitFor(patience, func() bool { return isDone(tn) || ctl.At(tn) != "" })
 		case "quit":
 			dmu.Lock()
